@@ -59,3 +59,131 @@ Theorem C04_rr_default :
          p1 = -1 \/ p2 = -1 -> (r1 < r2)%nat -> resolve [rd r1 p1 a1; rd r2 p2 a2] = Some (rd r1 p1 a1, true).
 Proof. exact Resolve.C04_rr_default. Qed.
 Print Assumptions C04_rr_default.
+
+From YG Require Import LRBase LR0Build Resolve TableCert Pipeline PipelineCell.
+Close Scope Z_scope.
+Open Scope nat_scope.
+
+(* at the level of the emitted tables: every cell of the dense matrix, read the way the generated parsers read it, is the pairwise resolution of that cell's candidate actions (the shift, then the reductions whose lookahead set contains the symbol, in rule order) *)
+Theorem C04_pipeline_cell :
+  forall gi : ginfo,
+         (forall r d : nat, nth_error (rhs_of (gi_rules gi) r) d <> Some 0) ->
+         lhs_of (gi_rules gi) 0 = 0 ->
+         (forall r d : nat, nth_error (rhs_of (gi_rules gi) r) d <> Some eof) ->
+         (exists S : nat, rhs_of (gi_rules gi) 0 = [S]) ->
+         forall t : tables,
+         generate_tables gi = inr t ->
+         forall q a : nat,
+         q < length (t_aut t) ->
+         a < gi_nsyms gi ->
+         dense_action (length (t_aut t)) (t_dense t) q a =
+         match
+           resolve (candidates (gi_rules gi) (t_aut t) (la_lookup (t_la t)) (sprec_of gi) (rprec_of gi) q a)
+         with
+         | Some (w, _) => decode (c_kind w)
+         | None => Error
+         end.
+Proof. exact PipelineCell.pipeline_cell. Qed.
+Print Assumptions C04_pipeline_cell.
+
+From YG Require Import LRBase LR0Build Resolve TableCert Pipeline PipelineCell.
+Close Scope Z_scope.
+Open Scope nat_scope.
+
+(* a shift/reduce conflict cell of the emitted table in which token and rule both carry a precedence: higher wins; equal: %left reduces, %right shifts, %nonassoc is a syntax error *)
+Theorem C04_pipeline_sr_prec :
+  forall gi : ginfo,
+         (forall r d : nat, nth_error (rhs_of (gi_rules gi) r) d <> Some 0) ->
+         lhs_of (gi_rules gi) 0 = 0 ->
+         (forall r d : nat, nth_error (rhs_of (gi_rules gi) r) d <> Some eof) ->
+         (exists S : nat, rhs_of (gi_rules gi) 0 = [S]) ->
+         forall (t : tables) (q a q' r : nat) (ps pr : Z) (asc ar : assoc),
+         generate_tables gi = inr t ->
+         q < length (t_aut t) ->
+         a < gi_nsyms gi ->
+         candidates (gi_rules gi) (t_aut t) (la_lookup (t_la t)) (sprec_of gi) (rprec_of gi) q a =
+         [sh q' ps asc; rd r pr ar] ->
+         ps <> (-1)%Z ->
+         pr <> (-1)%Z ->
+         r <> 0 ->
+         dense_action (length (t_aut t)) (t_dense t) q a =
+         (if (pr >? ps)%Z
+          then Reduce r
+          else
+           if (pr <? ps)%Z
+           then Shift q'
+           else
+            match ar with
+            | LEFT => match asc with
+                      | NONE => Error
+                      | _ => Reduce r
+                      end
+            | RIGHT => match asc with
+                       | NONE => Error
+                       | _ => Shift q'
+                       end
+            | NONE => Error
+            end).
+Proof. exact PipelineCell.pipeline_sr_prec. Qed.
+Print Assumptions C04_pipeline_sr_prec.
+
+From YG Require Import LRBase LR0Build Resolve TableCert Pipeline PipelineCell.
+Close Scope Z_scope.
+Open Scope nat_scope.
+
+(* without applicable precedence the cell shifts *)
+Theorem C04_pipeline_sr_default :
+  forall gi : ginfo,
+         (forall r d : nat, nth_error (rhs_of (gi_rules gi) r) d <> Some 0) ->
+         lhs_of (gi_rules gi) 0 = 0 ->
+         (forall r d : nat, nth_error (rhs_of (gi_rules gi) r) d <> Some eof) ->
+         (exists S : nat, rhs_of (gi_rules gi) 0 = [S]) ->
+         forall (t : tables) (q a q' r : nat) (ps pr : Z) (asc ar : assoc),
+         generate_tables gi = inr t ->
+         q < length (t_aut t) ->
+         a < gi_nsyms gi ->
+         candidates (gi_rules gi) (t_aut t) (la_lookup (t_la t)) (sprec_of gi) (rprec_of gi) q a =
+         [sh q' ps asc; rd r pr ar] ->
+         ps = (-1)%Z \/ pr = (-1)%Z -> dense_action (length (t_aut t)) (t_dense t) q a = Shift q'.
+Proof. exact PipelineCell.pipeline_sr_default. Qed.
+Print Assumptions C04_pipeline_sr_default.
+
+From YG Require Import LRBase LR0Build Resolve TableCert Pipeline PipelineCell.
+Close Scope Z_scope.
+Open Scope nat_scope.
+
+(* a reduce/reduce conflict cell without applicable precedence reduces by the rule that comes first *)
+Theorem C04_pipeline_rr_default :
+  forall gi : ginfo,
+         (forall r d : nat, nth_error (rhs_of (gi_rules gi) r) d <> Some 0) ->
+         lhs_of (gi_rules gi) 0 = 0 ->
+         (forall r d : nat, nth_error (rhs_of (gi_rules gi) r) d <> Some eof) ->
+         (exists S : nat, rhs_of (gi_rules gi) 0 = [S]) ->
+         forall (t : tables) (q a r1 r2 : nat) (p1 p2 : Z) (a1 a2 : assoc),
+         generate_tables gi = inr t ->
+         q < length (t_aut t) ->
+         a < gi_nsyms gi ->
+         candidates (gi_rules gi) (t_aut t) (la_lookup (t_la t)) (sprec_of gi) (rprec_of gi) q a =
+         [rd r1 p1 a1; rd r2 p2 a2] ->
+         p1 = (-1)%Z \/ p2 = (-1)%Z ->
+         r1 < r2 -> r1 <> 0 -> dense_action (length (t_aut t)) (t_dense t) q a = Reduce r1.
+Proof. exact PipelineCell.pipeline_rr_default. Qed.
+Print Assumptions C04_pipeline_rr_default.
+
+From YG Require Import Front FrontUsable FrontPrec.
+Close Scope Z_scope.
+Open Scope nat_scope.
+
+(* which precedence a rule carries (visitor model): the symbol named by %prec - none at all if that symbol has no level - else the last right-hand-side symbol that has a level *)
+Theorem C04_rule_precedence :
+  forall (tab : idtab) (pl : list (nat * assoc_kw * name)) (r : ruledef) (v : vrule),
+         visit_rule tab pl r = inr v ->
+         v_prec v =
+         (if is_nil (r_prec r)
+          then last_level pl (rsyms (r_rhs r)) None
+          else match pre_map pl (r_prec r) with
+               | Some _ => Some (r_prec r)
+               | None => None
+               end) /\ v_action v = last_action (r_rhs r) [] /\ v_lhs v = r_lhs r /\ v_rhs v = rsyms (r_rhs r).
+Proof. exact FrontPrec.visit_rule_prec. Qed.
+Print Assumptions C04_rule_precedence.
